@@ -296,6 +296,33 @@ fn single_strategy(tier: Tier) -> BoxedStrategy<SingleCase> {
         .boxed()
 }
 
+fn decode_c03_multi(u: &mut FuzzInput) -> MultiCase {
+    let mut c = decode_multi(u, 0);
+    c.rows = 44 + u.n(10) as u8;
+    c.cols = 8 + u.n(22) as u8;
+    c.hz = if u.n(3) == 0 { None } else { Some([1u8, 2, 20, 60, 255][u.n(4)]) };
+    c.step_ms = [0u32, 0, 1, 20, 2000][u.n(4)];
+    // limiter exhausted first, as in the generated scenarios
+    let mut pre = vec![MOp::Add(BarSpec { two_lines: false, len: Some(5), on_finish: 0, msg: String::new() }), MOp::Add(BarSpec { two_lines: false, len: Some(5), on_finish: 0, msg: String::new() })];
+    pre.extend(std::iter::repeat(MOp::Tick(0)).take(22));
+    pre.append(&mut c.ops);
+    c.ops = pre;
+    c
+}
+
+fn decode_c03_single(u: &mut FuzzInput) -> SingleCase {
+    let b = c01::decode_case(u);
+    SingleCase {
+        rows: b.rows.max(2),
+        cols: b.cols.max(2),
+        hz: if u.n(3) == 0 { None } else { Some([1u8, 3, 20, 255][u.n(3)]) },
+        step_ms: [0u32, 0, 1, 30, 5000][u.n(4)],
+        tpl: b.tpl,
+        ops: b.ops,
+        burn: u.bool(),
+    }
+}
+
 pub fn property() -> Property {
     let w = default_workers();
     Property {
@@ -316,6 +343,7 @@ pub fn property() -> Property {
                 signature: multi_signature,
                 essential: &["skipped_draw", "zombie_or_retained_block", "two_log_lines", "log_wraps", "frozen_clock_rate_limited", "bar_println"],
                 workers: w,
+                decode: Some(decode_c03_multi),
             }),
             Box::new(Gen::<SingleCase> {
                 name: "single",
@@ -326,6 +354,7 @@ pub fn property() -> Property {
                 signature: no_signature,
                 essential: &["skipped_draw", "println_while_frame_empty", "two_log_lines"],
                 workers: w,
+                decode: Some(decode_c03_single),
             }),
         ],
     }
